@@ -27,7 +27,7 @@ CHECKS = {
                 text="Bounded symbolic verification: all 8 potential / far-field kernels equal independently written closed forms for all points, normals and complex wavenumbers; the real kernel code satisfies Laplace / Helmholtz / modified Helmholtz equations exactly (jets); Maxwell potential assemblers satisfy curl E = ik H and div H = 0 per quadrature point, and the hard-coded gradient factor equals the gradient of the real kernel; scalar and Maxwell potential / far-field assemblers equal the textbook quadrature sums on meshes of 2-6 elements for every geometry, density and evaluation point; far-field translation phase law for real k. The r -> infinity limit, curl H = -ik E and div E = 0 (true only up to quadrature error) are outside the solver claim and validated numerically. One defect repaired (far-field kernels ignored Im k).",
                 ref="3/C08"),
     "C09": dict(cat="other", tech="symbolic execution of the real space constructors over a symbolic support mask and symbolic option flags (all constructor paths, z3 LIA counting formulas) and of space.evaluate / GridFunction.evaluate with symbolic vertex coordinates and local points (polynomial identities, z3/cvc5)",
-                text="Bounded symbolic verification: P1 values, RWG normal and SNC tangential components are continuous across a shared edge for all 18 consistently oriented local numberings, all vertex coordinates and every point of the edge; DP0/P1/DUAL0/DUAL1 bases sum to one at every point of every (barycentric) element of a closed mesh and the dual functions take their documented nodal values; on every path of the P1/RWG/SNC/DP0/DP1 constructors over all support masks x option flags on meshes of 4-6 (8) elements the dof count equals an independent counting formula and local2global/global2local are mutually inverse with one entity per dof. One defect repaired (DUAL1), three known findings (empty spaces report one dof).",
+                text="Bounded symbolic verification: P1 values, RWG normal and SNC tangential components are continuous across a shared edge for all 18 consistently oriented local numberings, all vertex coordinates and every point of the edge; DP0/P1/DUAL0/DUAL1 bases sum to one at every point of every (barycentric) element of a closed mesh and the dual functions take their documented nodal values; on every path of the P1/RWG/SNC/DP0/DP1 constructors over all support masks x option flags on meshes of 4-6 (8) elements the dof count equals an independent counting formula and local2global/global2local are mutually inverse with one entity per dof. BC/RBC conformity on closed meshes through the coefficient-table condition. Two defects repaired (DUAL1 barycentre dofs, DUAL0 truncated at the segment edge); known findings: empty spaces report one dof (P1/RWG/SNC), SNC with normals swapped on one side of an interface, BC/RBC on a segment.",
                 ref="3/C09"),
     "C10": dict(cat="other", tech="symbolic execution of GridFunction.evaluate on a space and on its barycentric representation (symbolic coefficients, symbolic local point; RWG/SNC with symbolic vertex coordinates, sqrt atoms related by solver-proved scaling lemmas) and of the sparse identity assembler under a symbolic quadrature rule constrained by its moment equations (LRA after monomial abstraction); z3/cvc5",
                 text="Bounded symbolic verification: for DP0/P1 (meshes of 4 elements incl. segment spaces) and RWG/SNC (2-4 elements, every vertex position, incl. a segment space whose support does not start at element 0) the barycentric representation agrees with the original function at every point of each of the 6 sub-triangles for every coefficient vector; DUAL0/DUAL1 functions take their documented nodal values on closed meshes; P1 x DUAL0, DP0 x DUAL1 and P1 x DUAL1 mass matrices equal the exact integrals of the product of the bases for every quadrature rule exact to the product degree. BC/RBC are outside the claim. One defect repaired (P1 barycentric tables).",
@@ -39,7 +39,7 @@ CHECKS = {
                 text="Bounded symbolic verification: lookups decided for every integer order (all paths of the real lookup code), exactness decided for every polynomial of the stated degree for all 20 triangle / 30 Gauss orders and Duffy orders 2..4 (5 thorough), region maps for all 1-D nodes in (0,1), remaps for every point. unsat = holds for all values within these bounds.",
                 ref="3/C12"),
     "C13": dict(cat="other", tech="symbolic execution of the sparse assembler and GridFunction routines on free geometry; identities under a symbolic quadrature rule with moment hypotheses decided in LRA after sound monomial abstraction (z3/cvc5)",
-                text="Bounded symbolic verification: identity matrices (DP0/P1/DP1/RWG/SNC pairs, with segments) and Laplace-Beltrami equal the closed-form exact integrals for EVERY quadrature rule satisfying the moment equations of the needed degree; integrate, evaluate_on_element_centers, evaluate_on_vertices, projections and MultiplicationOperator equal a harness-written direct quadrature for all coefficients and geometry values, on meshes of <= 6 elements.",
+                text="Bounded symbolic verification: identity matrices (DP0/P1/DP1/RWG/SNC pairs, with segments) and Laplace-Beltrami equal the closed-form exact integrals for EVERY quadrature rule satisfying the moment equations of the needed degree; integrate, l2_norm, evaluate_on_element_centers, evaluate_on_vertices, projections, MultiplicationOperator (component and inner mode) and the projections of jit-style and vectorised callables (uninterpreted functions of point, normal and domain index, on segment spaces) equal a harness-written direct quadrature for all coefficients and geometry values, on meshes of <= 6 elements. Recovery of exact coefficients from the projections needs the mass solve (C15). Three defects repaired.",
                 ref="3/C13"),
     "C14": dict(cat="other", tech="symbolic execution of the operator-algebra classes on symbolic matrices / scalars / vectors for enumerated expression trees (programs); polynomial identities decided by z3/cvc5; exact-rational LAPACK contract stub for the mass solve",
                 text="Bounded symbolic verification over programs: every well-typed expression tree of depth 1 over 4 leaf operators (dense, sparse, generic; real and complex) and 8 operations, and a seeded sample of depth-2 trees (all of them in the thorough tier), evaluates - via to_dense, matvec, matmat, application to grid functions and strong_form - to the matrix expression for ALL matrix entries, scalars and vectors; ill-typed trees must raise; likewise potential-operator sums/scalings, 2x2 blocked operators and grid-function arithmetic. Two genuine defects were repaired.",
